@@ -1473,8 +1473,11 @@ LEVEL_TEXT = ('Machine-checked Coq theorems (all unbounded unless said otherwise
               'number, stored header = header of the registered list), reopen_same (after every history reopening -- parsing path and '
               'file list back from the stored header -- gives the identical state), hist_get_sound (after every history, in either '
               'mode, whatever id the index finds answers header / text / residues / every slice s[i:j] of the record with that id). '
-              'Modelled and tied, not yet proved about: the byte layout of the whole binary index file (magic, offsets, header, field '
-              'table, fixed-width records) with read_header()/read(), compared with the bytes of the real index file after every add. '
+              'Byte layouts: pack_iff / stored_db_iff (F15 exactly: _pack/_unpack round-trip iff file number and line length < 65536; '
+              'the dbm store returns the record or OverflowError accordingly), record_roundtrip (fixed-width record: ljust/rstrip id + '
+              'big-endian integers), file_roundtrip (the whole binary index file -- magic, offsets, header, field table, sorted records '
+              'with the column widths write() computes -- parses back: read_header() = header, read() = sorted records), '
+              'hist_file_roundtrip (the same for the index file of every state a history can reach). '
               'The model (incl. the whole-file reader and the '
               'header functions) is tied to the real code by differential testing on every run (both back ends, same object and '
               'reopened, registration against name order, call histories on the same objects, temp directories).')
